@@ -56,6 +56,7 @@ type TableSpec struct {
 	Default string
 	HasDef  bool
 	ResBool bool
+	ResStr  bool
 }
 
 type SpecFn struct {
@@ -223,8 +224,20 @@ func (db *SpecDB) LoadFile(path string, pkg string) error {
 				return fail("loop ordinal: %v", err)
 			}
 			kind, rest3 := splitFirst(rest2)
+			if kind == "frame" {
+				c := &Clause{Kind: "loopframe", Src: rest3, Loop: n, File: it.file, Line: it.line}
+				for _, part := range splitTopLevel(rest3, ',') {
+					e, err := ParseExpr(part)
+					if err != nil {
+						return fail("%v", err)
+					}
+					c.Mods = append(c.Mods, e)
+				}
+				cur.Clauses = append(cur.Clauses, c)
+				continue
+			}
 			if kind != "invariant" && kind != "decreases" {
-				return fail("loop clause must be invariant or decreases")
+				return fail("loop clause must be invariant, decreases or frame")
 			}
 			tags, src := splitTags(rest3)
 			e, err := ParseExpr(src)
@@ -300,7 +313,7 @@ func (db *SpecDB) LoadFile(path string, pkg string) error {
 			}
 			t := db.Tables[m[1]]
 			if t == nil {
-				t = &TableSpec{Name: m[1], KeyType: m[2], Entries: map[string]string{}, ResBool: m[3] == "bool"}
+				t = &TableSpec{Name: m[1], KeyType: m[2], Entries: map[string]string{}, ResBool: m[3] == "bool", ResStr: m[3] == "string"}
 				db.Tables[m[1]] = t
 			}
 			for _, ent := range strings.Split(rest[i+1:], ",") {
